@@ -60,6 +60,9 @@ type env struct {
 	cur   *plan
 	rev2  bool
 	class string
+	// count: the number of messages the wire has told the client the selected mailbox holds (the
+	// last EXISTS minus the EXPUNGE responses since); it decides which message "*" addresses
+	count uint32
 }
 
 func (e *env) viol(class, op, detail string) {
@@ -511,6 +514,8 @@ func sectionKey(s *imap.FetchItemBodySection) string {
 	return fmt.Sprintf("%s|%v|%q|%q|%s", s.Specifier, s.Part, s.HeaderFields, s.HeaderFieldsNot, off)
 }
 
+type imapnum32 struct{ a, b uint32 }
+
 func (e *env) opFetch() {
 	rng := e.rng
 	uidCmd := rng.Intn(2) == 0
@@ -560,6 +565,7 @@ func (e *env) opFetch() {
 		}
 	}
 	p := &plan{}
+	dyn := false
 	nm := 1 + rng.Intn(3)
 	var seqs imap.SeqSet
 	var uids imap.UIDSet
@@ -591,13 +597,54 @@ func (e *env) opFetch() {
 		uids.AddNum(m.uid)
 		p.msgs = append(p.msgs, m)
 	}
-	e.cur = p
 	var numSet imap.NumSet = seqs
 	if uidCmd {
 		numSet = uids
 	}
+	if e.count > 0 && rng.Intn(4) == 0 {
+		// a set that addresses the last message only through "*": the backend writes the data of
+		// message number count, and it has to reach this command
+		p.msgs = p.msgs[:1]
+		p.msgs[0].seq = e.count
+		var r imapnum32
+		switch rng.Intn(3) {
+		case 0:
+			r = imapnum32{0, 0}
+		case 1:
+			r = imapnum32{e.count + 1 + uint32(rng.Intn(5)), 0}
+		case 2:
+			r = imapnum32{0, e.count + 7}
+		}
+		if uidCmd {
+			if r.a != 0 {
+				r.a = uint32(p.msgs[0].uid) + 1 + uint32(rng.Intn(5))
+				if r.a < uint32(p.msgs[0].uid) {
+					r.a = 0
+				}
+			}
+			if r.b != 0 {
+				r.b = uint32(p.msgs[0].uid) + 3
+				if r.b < uint32(p.msgs[0].uid) {
+					r.b = 0
+				}
+			}
+			var us imap.UIDSet
+			us.AddRange(imap.UID(r.a), imap.UID(r.b)) // AddRange, so that "*:n" is stored the way the library stores it
+			numSet = us
+		} else {
+			var ss imap.SeqSet
+			ss.AddRange(r.a, r.b)
+			numSet = ss
+		}
+		dyn = true
+		e.w.Metric("fetches_addressed_through_star", 1)
+	}
+	e.cur = p
 	var got []*imapclient.FetchMessageBuffer
 	op := "FETCH " + shape(opts, uidCmd)
+	if dyn {
+		op = "FETCH* " + shape(opts, uidCmd)
+	}
 	if !e.run(op, func() error {
 		var err error
 		got, err = e.c.Fetch(numSet, opts).Collect()
@@ -606,7 +653,12 @@ func (e *env) opFetch() {
 		return
 	}
 	if len(got) != len(p.msgs) {
-		e.viol("data-lost", op, fmt.Sprintf("%d messages written, %d delivered", len(p.msgs), len(got)))
+		extra := ""
+		if dyn {
+			mb := e.c.Mailbox()
+			extra = fmt.Sprintf("; set %s, data written for message %d, the wire announced %d messages, Mailbox() = %+v", numSet.String(), p.msgs[0].seq, e.count, mb)
+		}
+		e.viol("data-lost", op, fmt.Sprintf("%d messages written, %d delivered%s", len(p.msgs), len(got), extra))
 		return
 	}
 	for i, m := range p.msgs {
@@ -984,6 +1036,7 @@ func (e *env) opSelect() {
 	if !e.run("SELECT", func() error { var err error; got, err = e.c.Select(name, &imap.SelectOptions{ReadOnly: r.Intn(2) == 0}).Wait(); return err }) {
 		return
 	}
+	e.count = d.NumMessages
 	if got.NumMessages != d.NumMessages || got.UIDNext != d.UIDNext || got.UIDValidity != d.UIDValidity || fmt.Sprint(canonFlags(got.Flags)) != fmt.Sprint(canonFlags(d.Flags)) || fmt.Sprint(canonFlags(got.PermanentFlags)) != fmt.Sprint(canonFlags(d.PermanentFlags)) {
 		e.viol("data-differs", "SELECT", fmt.Sprintf("%+v delivered as %+v", *d, *got))
 	}
@@ -1042,11 +1095,12 @@ func (e *env) opAppendCopyMove() {
 				d = &imap.CopyData{UIDValidity: 5, SourceUIDs: imap.UIDSetNum(1), DestUIDs: imap.UIDSetNum(2)}
 				e.cur.copyD = d
 			}
-			e.cur.expunged = []uint32{uint32(1 + r.Intn(5)), 1}
+			e.cur.expunged = e.expungePlan(2)
 			var got *imapclient.MoveData
 			if !e.run("MOVE", func() error { var err error; got, err = e.c.Move(imap.SeqSetNum(1, 2), "Trash").Wait(); return err }) {
 				return
 			}
+			e.count -= uint32(len(e.cur.expunged))
 			if got == nil || got.UIDValidity != d.UIDValidity || got.SourceUIDs == nil || got.SourceUIDs.String() != d.SourceUIDs.String() || got.DestUIDs.String() != d.DestUIDs.String() {
 				e.viol("data-differs", "MOVE", fmt.Sprintf("COPYUID %d %s %s delivered as %+v", d.UIDValidity, d.SourceUIDs.String(), d.DestUIDs.String(), got))
 			}
@@ -1060,18 +1114,32 @@ func (e *env) opAppendCopyMove() {
 			}
 		}
 	case 3:
-		e.cur = &plan{}
-		for k := r.Intn(5); k > 0; k-- {
-			e.cur.expunged = append(e.cur.expunged, uint32(1+r.Intn(50)))
-		}
+		e.cur = &plan{expunged: e.expungePlan(r.Intn(5))}
 		var got []uint32
 		if !e.run("EXPUNGE", func() error { var err error; got, err = e.c.Expunge().Collect(); return err }) {
 			return
 		}
+		e.count -= uint32(len(e.cur.expunged))
 		if fmt.Sprint(got) != fmt.Sprint(e.cur.expunged) && !(len(got) == 0 && len(e.cur.expunged) == 0) {
 			e.viol("data-differs", "EXPUNGE", fmt.Sprintf("expunged %v delivered as %v", e.cur.expunged, got))
 		}
 	}
+}
+
+// expungePlan: up to k sequence numbers a server could legitimately expunge one after the other from a
+// mailbox of e.count messages
+func (e *env) expungePlan(k int) []uint32 {
+	var out []uint32
+	n := e.count
+	for ; k > 0 && n > 0; k-- {
+		lim := n
+		if lim > 50 {
+			lim = 50
+		}
+		out = append(out, uint32(1+e.rng.Intn(int(lim))))
+		n--
+	}
+	return out
 }
 
 func (e *env) opNamespace() {
@@ -1143,10 +1211,12 @@ func runSession(w *hx.W, rng *rand.Rand, caps imap.CapSet, capsName string, enab
 	for i := 0; i < nops; i++ {
 		if c.State() != imap.ConnStateSelected {
 			e.cur = nil
-			if _, err := c.Select("INBOX", nil).Wait(); err != nil {
+			d, err := c.Select("INBOX", nil).Wait()
+			if err != nil {
 				e.viol("connection-lost", "session", "cannot re-select: "+err.Error()+fmt.Sprint(srv.Log.Lines()))
 				return
 			}
+			e.count = d.NumMessages
 		}
 		switch rng.Intn(10) {
 		case 0, 1, 2, 3:
